@@ -171,6 +171,9 @@ type Hook func(c *Cluster, r *Request) *Action
 type Cluster struct {
 	// ReversePartitionOrder: metadata responses list the partitions of a topic by decreasing id (set before use)
 	ReversePartitionOrder bool
+	// ReverseOffsetFetchOrder: OffsetFetch responses list the partitions of a topic in the reverse of the requested order
+	// (the coordinator builds the answer from a map; the protocol promises no order) (set before use)
+	ReverseOffsetFetchOrder bool
 
 	Net *memnet.Network
 
